@@ -722,29 +722,21 @@ theorem find_latest_time_numeric (st : DStore) (label dd ff t : Str)
   rw [lex_eq_numeric t' t h2.2 h1.2 (h2.1.trans h1.1.symm)] at hle
   exact of_decide_eq_true hle
 
-theorem matchDigitsN_exact (n : Nat) (s : Str) (h : matchDigitsN n s = true) (hl : s.length = n) :
-    s.all isDigit = true := by
-  unfold matchDigitsN stripNL at h
-  split at h
-  · simp only [Bool.and_eq_true, decide_eq_true_eq, List.length_dropLast] at h
-    rename_i hlast
-    have : s ≠ [] := by intro hs; subst hs; simp at hlast
-    have := List.length_pos_iff.mpr this
-    omega
-  · simp only [Bool.and_eq_true] at h
-    exact h.2
+theorem matchDigitsN_spec (n : Nat) (s : Str) (h : matchDigitsN n s = true) :
+    s.length = n ∧ s.all isDigit = true := by
+  unfold matchDigitsN at h
+  simp only [Bool.and_eq_true, decide_eq_true_eq] at h
+  exact h
 
-/-- the returned date code is numerically the largest among the candidates
-(for date directory names of exactly 8 characters, i.e. without the trailing newline that
-Python's `$` tolerates) -/
+/-- the returned date code is numerically the largest among the candidates -/
 theorem find_latest_date_numeric (st : DStore) (label dd ff t : Str)
     (h : findLatest st label none = .ok (some (dd, ff, t))) (dd' ff' t' : Str)
-    (hc : IsCandidate st label dd' ff' t') (hl : dd.length = 8) (hl' : dd'.length = 8) :
-    parseNat dd' ≤ parseNat dd := by
+    (hc : IsCandidate st label dd' ff' t') : parseNat dd' ≤ parseNat dd := by
   obtain ⟨⟨hmd, _⟩, hmax⟩ := find_latest_is_max st label dd ff t h
   have hle := (hmax dd' ff' t' hc).1
-  rw [lex_eq_numeric dd' dd (matchDigitsN_exact 8 dd' hc.1 hl') (matchDigitsN_exact 8 dd hmd hl)
-    (hl'.trans hl.symm)] at hle
+  have h1 := matchDigitsN_spec 8 dd' hc.1
+  have h2 := matchDigitsN_spec 8 dd hmd
+  rw [lex_eq_numeric dd' dd h1.2 h2.2 (h1.1.trans h2.1.symm)] at hle
   exact of_decide_eq_true hle
 
 /-! ## non-vacuity: concrete histories -/
